@@ -173,7 +173,7 @@ Qed.
 
 Lemma in_less_key a b : wf_in a -> wf_in b -> in_less a b = in_klt (in_key a) (in_key b).
 Proof.
-  intros [La _] [Lb _]. unfold in_less, in_klt, in_key. simpl.
+  intros [La _] [Lb _]. unfold in_less, in_klt, in_key. cbn [fst snd].
   destruct (reversed_is_rev _ La) as [-> _]. destruct (reversed_is_rev _ Lb) as [_ ->].
   reflexivity.
 Qed.
@@ -317,7 +317,7 @@ Lemma in_sorted_ordered (l : list txin) : Forall wf_in l ->
   (go_is_sorted in_less l = true <-> ordered in_spec_lt l).
 Proof.
   intros HP.
-  rewrite (go_is_sorted_iff in_key in_klt in_less wf_in in_klt_irrefl in_klt_trans in_klt_total in_less_key l HP).
+  rewrite (go_is_sorted_iff in_key in_klt in_less wf_in in_klt_trans in_klt_total in_less_key l HP).
   unfold ksorted, ordered. apply (StronglySorted_map_iff in_key _ _ wf_in l HP).
   intros a b Ha Hb. unfold kle. rewrite <- in_klt_spec by assumption.
   destruct (in_klt (in_key b) (in_key a)); split; intros H; congruence.
@@ -327,7 +327,7 @@ Lemma out_sorted_ordered (l : list txout) :
   go_is_sorted out_less l = true <-> ordered out_spec_lt l.
 Proof.
   assert (Forall (fun _ : txout => True) l) as HP by (apply Forall_forall; auto).
-  rewrite (go_is_sorted_iff out_key out_klt out_less (fun _ => True) out_klt_irrefl out_klt_trans out_klt_total
+  rewrite (go_is_sorted_iff out_key out_klt out_less (fun _ => True) out_klt_trans out_klt_total
              (fun a b _ _ => out_less_key a b) l HP).
   unfold ksorted, ordered. apply (StronglySorted_map_iff out_key _ _ (fun _ => True) l HP).
   intros a b _ _. unfold kle. rewrite <- out_less_is_spec, out_less_key.
@@ -392,7 +392,7 @@ Section Tx.
   Proof. rewrite !wf_tx_values. simpl. rewrite fresh_snd. auto. Qed.
 
   Lemma sort_perm_sorted next tx : wf_tx tx ->
-    let s := sort gosort next tx in
+    let s := sort_tx gosort next tx in
     tx_other s = tx_other tx /\
     Permutation (map snd (tx_in tx)) (map snd (tx_in s)) /\
     Permutation (map snd (tx_out tx)) (map snd (tx_out s)) /\
@@ -404,7 +404,7 @@ Section Tx.
     - apply Permutation_map with (f := snd) in Hpo. simpl in Hpo. rewrite fresh_snd in Hpo. exact Hpo.
   Qed.
 
-  Lemma sort_wf next tx : wf_tx tx -> wf_tx (sort gosort next tx).
+  Lemma sort_wf next tx : wf_tx tx -> wf_tx (sort_tx gosort next tx).
   Proof. intros Hwf. apply (inplace_perm_sorted (tx_copy next tx) (wf_tx_copy next tx Hwf)). Qed.
 End Tx.
 
@@ -430,8 +430,8 @@ Proof.
   intros Hwf Hpi Hpo H1 H2. apply wf_tx_values in Hwf.
   apply is_sorted_split in H1 as [H1i H1o]. apply is_sorted_split in H2 as [H2i H2o].
   unfold keyseq. rewrite !map_map_key. f_equal.
-  - apply (sorted_perm_keys in_key in_klt in_less wf_in in_klt_irrefl in_klt_trans in_klt_total in_less_key); assumption.
-  - apply (sorted_perm_keys out_key out_klt out_less (fun _ => True) out_klt_irrefl out_klt_trans out_klt_total
+  - apply (sorted_perm_keys in_key in_klt in_less wf_in in_klt_trans in_klt_total in_less_key); assumption.
+  - apply (sorted_perm_keys out_key out_klt out_less (fun _ => True) out_klt_trans out_klt_total
              (fun a b _ _ => out_less_key a b)); try assumption.
     apply Forall_forall. auto.
 Qed.
@@ -441,7 +441,7 @@ Section Tx2.
   Hypothesis g1_ok : sort_contract g1.
   Hypothesis g2_ok : sort_contract g2.
 
-  Lemma sorted_after_sort next tx : wf_tx tx -> is_sorted (sort g1 next tx) = true.
+  Lemma sorted_after_sort next tx : wf_tx tx -> is_sorted (sort_tx g1 next tx) = true.
   Proof.
     intros Hwf. apply is_sorted_iff; [apply sort_wf; assumption|].
     apply (sort_perm_sorted g1 g1_ok next tx Hwf).
@@ -454,12 +454,12 @@ Section Tx2.
   Qed.
 
   Lemma sort_idempotent next next' tx : wf_tx tx ->
-    is_sorted (sort g1 next tx) = true /\
-    keyseq (sort g2 next' (sort g1 next tx)) = keyseq (sort g1 next tx) /\
-    (is_sorted tx = true -> keyseq (sort g1 next tx) = keyseq tx).
+    is_sorted (sort_tx g1 next tx) = true /\
+    keyseq (sort_tx g2 next' (sort_tx g1 next tx)) = keyseq (sort_tx g1 next tx) /\
+    (is_sorted tx = true -> keyseq (sort_tx g1 next tx) = keyseq tx).
   Proof.
     intros Hwf. pose proof (sorted_after_sort next tx Hwf) as Hs1.
-    assert (forall g n t, sort_contract g -> wf_tx t -> is_sorted t = true -> keyseq (sort g n t) = keyseq t) as Hfix.
+    assert (forall g n t, sort_contract g -> wf_tx t -> is_sorted t = true -> keyseq (sort_tx g n t) = keyseq t) as Hfix.
     { intros g n t Hg Hw Hs. symmetry.
       destruct (sort_perm_sorted g Hg n t Hw) as [_ [Hpi [Hpo Hb]]].
       apply sorted_perm_keyseq; try assumption.
@@ -470,17 +470,17 @@ Section Tx2.
   Qed.
 
   Lemma inplace_same_order next tx : wf_tx tx ->
-    keyseq (inplace_sort g1 tx) = keyseq (sort g2 next tx) /\
+    keyseq (inplace_sort g1 tx) = keyseq (sort_tx g2 next tx) /\
     Permutation (ids tx) (ids (inplace_sort g1 tx)) /\
     ((forall a b, In a (map snd (tx_in tx)) -> In b (map snd (tx_in tx)) -> in_key a = in_key b -> a = b) ->
-     map snd (tx_in (inplace_sort g1 tx)) = map snd (tx_in (sort g2 next tx))) /\
+     map snd (tx_in (inplace_sort g1 tx)) = map snd (tx_in (sort_tx g2 next tx))) /\
     ((forall a b, In a (map snd (tx_out tx)) -> In b (map snd (tx_out tx)) -> out_key a = out_key b -> a = b) ->
-     map snd (tx_out (inplace_sort g1 tx)) = map snd (tx_out (sort g2 next tx))).
+     map snd (tx_out (inplace_sort g1 tx)) = map snd (tx_out (sort_tx g2 next tx))).
   Proof.
     intros Hwf.
     destruct (inplace_perm_sorted g1 g1_ok tx Hwf) as [_ [Hpi [Hpo [Hb Hw]]]].
     destruct (sort_perm_sorted g2 g2_ok next tx Hwf) as [_ [Hqi [Hqo Hb2]]].
-    assert (keyseq (inplace_sort g1 tx) = keyseq (sort g2 next tx)) as Hk.
+    assert (keyseq (inplace_sort g1 tx) = keyseq (sort_tx g2 next tx)) as Hk.
     { apply sorted_perm_keyseq.
       - assumption.
       - etransitivity; [apply Permutation_sym, Permutation_map; exact Hpi| exact Hqi].
@@ -503,7 +503,7 @@ Section Tx2.
 
   (* Sort allocates: every object of the result is new, the argument is only read *)
   Lemma sort_non_destructive next tx : wf_tx tx ->
-    let s := sort g1 next tx in
+    let s := sort_tx g1 next tx in
     NoDup (ids s) /\ Forall (fun i => next <= i) (ids s) /\
     (Forall (fun i => i < next) (ids tx) -> forall i, In i (ids tx) -> ~ In i (ids s)).
   Proof.
